@@ -12,7 +12,7 @@ import (
 
 func init() {
 	register("C14", propMeta{
-		Explanation:  "(R1) every context-taking method of btree.BtreeInterface is declared on the transaction wrapper (not merely promoted from the embedded interface) and its delegate call is reachable only when transaction.HasBegun() is true, and, for the methods whose Btree implementation reaches the item-action tracker's or node repository's mutators in the call graph (the mutating set is derived, not listed), only when GetMode() == ForWriting; (R2) the lifecycle state machine of common.Transaction is extracted by abstract interpretation of Begin/Phase1Commit/Phase2Commit/Rollback over all 24 pre-states (phaseDone x committed x mode) and checked against the lifecycle table: Begin only from the initial state, commits only between Begin and the end, a finished transaction reaches no commit/rollback internals and keeps its state, every exit of Phase2Commit/Rollback that did work leaves the transaction finished, committed is set only on a nil return, writer internals only in ForWriting mode, phaseDone monotone; (R3) only those four methods write phaseDone/committed; (R4) the pre-commit storage mutation in NewBtree (StoreRepository.Add) is guarded by a writer-mode check; (R5) nothing can fail after the commit point, so a committed transaction is never handed to rollback (shared with C01.R3).",
+		Explanation:  "(R1) every context-taking method of btree.BtreeInterface is declared on the transaction wrapper (not merely promoted from the embedded interface) and its delegate call is reachable only when transaction.HasBegun() is true, and, for the methods whose Btree implementation reaches the item-action tracker's or node repository's mutators in the call graph (the mutating set is derived, not listed), only when GetMode() == ForWriting; (R2) the lifecycle state machine of common.Transaction is extracted by abstract interpretation of Begin/Phase1Commit/Phase2Commit/Rollback over all 24 pre-states (phaseDone x committed x mode) and checked against the lifecycle table: Begin only from the initial state, commits only between Begin and the end, a finished transaction reaches no commit/rollback internals and keeps its state, every exit of Phase2Commit/Rollback that did work leaves the transaction finished, committed is set only on a nil return, writer internals only in ForWriting mode, phaseDone monotone; (R3) only those four methods write phaseDone/committed; (R4) the pre-commit storage mutation in NewBtree (StoreRepository.Add) is guarded by a writer-mode check; (R5) nothing can fail after the commit point, so a committed transaction is never handed to rollback (shared with C01.R3). (R6) a failed Commit ends the transaction: every failure edge of SinglePhaseTransaction.Commit passes t.Rollback (shared with C16.R2).",
 		DoesNotCover: "Operations of the SinglePhaseTransaction wrapper other than what C16 covers, Close, and the behaviour of store operations themselves.",
 		Technique:    "static analysis: wrapper exhaustiveness over the interface's method set, CFG guard dominance, call-graph derivation of the mutating set, and abstract interpretation of the lifecycle methods over a finite state domain (exhaustive: 96 pre-state/method pairs)",
 	}, runC14)
